@@ -314,7 +314,7 @@ fn end_to_end(ctx: &Ctx, tally: &mut Tally) -> Value {
         if i == 0 && synced == 0 {
             tally.add("C07:e2e:never-synchronized", format!("{}: no Synchronized record within {} ms (daemon exit status {})", sc.name, sc.observe_ms, v["daemon_exit_status"]), doc.clone());
         }
-        report.push(json!({"scenario": sc.name, "publications": pubs.len(), "synchronized_publications": synced, "daemon_exit_status": v["daemon_exit_status"]}));
+        report.push(json!({"scenario": sc.name, "publications": pubs.len(), "synchronized_publications": synced, "daemon_exit_status": v["daemon_exit_status"], "machine": v["machine"]}));
     }
     json!({"scenarios": report})
 }
